@@ -168,6 +168,7 @@ class _Tok:
         if c == 0x28:  # (
             self.pos += 1
             items = []
+            glued = False  # the previous item was a list and nothing stands between its ")" and here
             while True:
                 c = self.peek()
                 if c is None:
@@ -177,8 +178,14 @@ class _Tok:
                     return items
                 if c == 0x20:
                     self.pos += 1
+                    glued = False
                     continue
+                if glued and c != 0x28:
+                    # `(...)(...)` is how the parts of a multipart body follow each other; a string or an
+                    # atom glued to a ")" is in no production of the grammar (body-type-mpart = 1*body SP subtype)
+                    raise Malformed("missing_space", "string or atom directly after ')'")
                 items.append(self.value(depth + 1))
+                glued = isinstance(items[-1], list)
         if c == 0x29:
             raise Malformed("unbalanced_parens", "unexpected )")
         if c == 0x22:  # "
